@@ -6,8 +6,14 @@
    2. correspondence: the model [Fun2Core.compile_prog] against the Rust output (canonical printing);
    3. ALWAYS the executable form of the property on the RUST output: for every argument tuple
       [run_fun] on the checked program vs [run_core] on the Rust Core program.  A difference is
-      `VIOL class=capture-under-binder ..` when the syntactic detector [shadowing_risk] fires on the
-      source program, `VIOL class=semantic-mismatch ..` otherwise.  Tuples on which the source run
+        SKIP unsequenced-mismatch        when the program is outside the property's precondition
+                                         ([effect_sequenced] false: some argument or codata binding
+                                         has an effect, so the order of effects is not fixed by the
+                                         source semantics),
+        VIOL class=mistyped-goto-unbound when the Core run is stuck on an unbound (co)variable and the
+                                         source has a goto whose annotation differs from its label's type,
+        VIOL class=capture-under-binder  when the syntactic detector [shadowing_risk] fires on the source,
+        VIOL class=semantic-mismatch     otherwise.  Tuples on which the source run
       does not end in a normal exit within the fuel (undefined arithmetic, stuck, out of fuel) are
       not compared (the property speaks about the defined behaviour). *)
 From Coq Require Import List ZArith NArith String Bool.
@@ -30,7 +36,12 @@ Definition s_res_cprog (r : res cprog) : sexp :=
 Definition show_args (a : list Z) : string := show (L (map sZ a)).
 
 (* compare the two semantics on all tuples; first difference wins *)
-Fixpoint sem_compare (p : fcprog) (c : cprog) (tuples : list (list Z)) (ncmp : nat) : sum string nat :=
+Definition is_unbound (o : obs) : bool :=
+  match snd o with
+  | OStuck w => String.eqb w "covar-unbound" || String.eqb w "var-unbound"
+  | _ => false
+  end.
+Fixpoint sem_compare (p : fcprog) (c : cprog) (tuples : list (list Z)) (ncmp : nat) : sum (string * bool) nat :=
   match tuples with
   | [] => inr ncmp
   | a :: r =>
@@ -38,7 +49,7 @@ Fixpoint sem_compare (p : fcprog) (c : cprog) (tuples : list (list Z)) (ncmp : n
       if defined o1 then
         let o2 := run_core c02_fuel c a in
         if obs_eqb o1 o2 then sem_compare p c r (S ncmp)
-        else inl ("args=" ++ show_args a ++ " fun=" ++ show (s_obs o1) ++ " core=" ++ show (s_obs o2))
+        else inl ("args=" ++ show_args a ++ " fun=" ++ show (s_obs o1) ++ " core=" ++ show (s_obs o2), is_unbound o2)
       else sem_compare p c r ncmp
   end.
 
@@ -80,9 +91,12 @@ Definition fun2core_case (i r : sexp) : verdict :=
                   | None => VBad ("rust output unreadable: " ++ show_bad (first_bad readable_core r))
                   | Some c =>
                       match sem_compare p c tuples 0 with
-                      | inl what =>
-                          VViol ((if shadowing_risk_prog p then "class=capture-under-binder " else
-                                  if effect_sequenced p then "class=semantic-mismatch " else "class=unsequenced-mismatch ")
+                      | inl (what, core_unbound) =>
+                          if negb (effect_sequenced p) then VSkip ("unsequenced-mismatch " ++ name ++ " " ++ what)
+                          else
+                          VViol ((if core_unbound && goto_type_mismatch_prog p then "class=mistyped-goto-unbound " else
+                                  if shadowing_risk_prog p then "class=capture-under-binder " else
+                                  "class=semantic-mismatch ")
                                  ++ name ++ " " ++ what)
                       | inr ncmp =>
                           match m with
